@@ -190,8 +190,11 @@ fn load_case_json(prop: &str, c: &Case, cfg: GenConfig, ix: SchemaIx, doc: ExecD
         let r = cli::run_cli(cli_bin, &dir, &["generate", "--output-format", "json"], std::time::Duration::from_secs(60));
         if let Some(l) = r.panicked() {
             out.push(Violation { sig: format!("{prop}|panic|{}|introspection-route", r.panic_site().unwrap_or_default()), detail: format!("nitrogql-cli printed a panic: {l}"), replay: replay.clone() });
+        } else if r.status != Some(0) {
+            if std::env::var("NQV_DEBUG_JSON").is_ok() { eprintln!("JSON route: status {:?} stdout {} stderr {}", r.status, clip(&r.stdout, 600), clip(&r.stderr, 300)); }
         } else if r.status == Some(0) {
-            if let (Ok(schema_dts), Ok(op_dts)) = (std::fs::read_to_string(dir.join("generated/schema.d.ts")), std::fs::read_to_string(dir.join("op.graphql.d.ts"))) {
+            if std::env::var("NQV_DEBUG_JSON").is_ok() { eprintln!("JSON route ok: {:?}", crate::cli::snapshot(&dir).keys().collect::<Vec<_>>()); }
+            if let (Ok(schema_dts), Ok(op_dts)) = (std::fs::read_to_string(dir.join("generated/schema.d.ts")), std::fs::read_to_string(dir.join(format!("op.{}", cfg.decl_extension())))) {
                 match ts::load(&schema_dts, Some(&op_dts)) {
                     Ok(l) => {
                         if let Ok(op_stmts) = ts::parse_module(&op_dts) {
